@@ -137,6 +137,13 @@ class Extractor:
                 return ("tuple", [("idx", level), self.source(n["recv"], level)])
             if nm in PASS_METHODS:
                 return self.source(n["recv"], level)
+            if nm == "flatten" and not n["args"]:
+                # `X.iter_mut().flatten()`: every element of every element, in order - one more level in the same loop
+                inner = self.source(n["recv"], level)
+                if inner[0] != "root":
+                    raise Unrecognised("flatten of a zipped / enumerated traversal")
+                self.flattened = getattr(self, "flattened", 0) + 1
+                return ("root", inner[1], inner[2] + 1)
             raise Unrecognised("iterator adaptor `%s` is not an every-element, in-order traversal" % nm)
         if k in ("local", "index"):
             # `for x in data` / `for x in &data`
@@ -202,11 +209,13 @@ class Extractor:
                 cl = strip(n["args"][0])
                 if cl.get("k") != "closure" or len(cl["params"]) != 1:
                     raise Unrecognised("%s without a single-parameter closure" % nm)
+                f0 = getattr(self, "flattened", 0)
                 item = self.source(n["recv"], level)
+                extra = getattr(self, "flattened", 0) - f0
                 self.bind(cl["params"][0], item)
                 res.style.append(nm)
-                res.levels = level + 1
-                return self.inner(cl["body"], level + 1, item)
+                res.levels = level + 1 + extra
+                return self.inner(cl["body"], level + 1 + extra, item)
             raise Unrecognised("unrecognised traversal method `%s`: %s" % (nm, short(pretty(n), 80)))
         if k in ("local", "index"):
             # a root passed whole to extend()/collect: all remaining levels in order
@@ -218,11 +227,13 @@ class Extractor:
                 res.identity = r[1]
                 return res
         if k == "for":
+            f0 = getattr(self, "flattened", 0)
             item = self.source(n["iter"], level)
+            extra = getattr(self, "flattened", 0) - f0
             self.bind(n["pat"], item)
             res.style.append("for")
-            res.levels = level + 1
-            return self.inner(n["body"], level + 1, item)
+            res.levels = level + 1 + extra
+            return self.inner(n["body"], level + 1 + extra, item)
         if k == "blk":
             # a block with several statements: exactly one of them may contain the traversal
             b = n["b"]
